@@ -9,18 +9,14 @@ package events
 //@   modifies eventLog
 
 //@ # ---------------------------------------------------------------- address / public-key tables of the events store (C24)
-//@ # big-endian encodings of the table ids (ASSUMED injective encoders)
-//@ spec be32(x int) string
-//@ spec be16(x int) string
-//@ axiom be32len: forall x int :: len(be32(x)) == 4
-//@ axiom be16len: forall x int :: len(be16(x)) == 2
+//@ # big-endian encodings of the table ids: the engine's be32enc/be16enc (fixed length, decode(encode(x)) == x: A-CODEC)
 //@ func uint32ToBytes
 //@   trusted
-//@   ensures result != nil && fresh(result) && len(result) == 4 && bytestr(result) == be32(height)
+//@   ensures result != nil && fresh(result) && len(result) == 4 && bytestr(result) == be32enc(height)
 //@   modifies nothing
 //@ func uint16ToBytes
 //@   trusted
-//@   ensures result != nil && fresh(result) && len(result) == 2 && bytestr(result) == be16(height)
+//@   ensures result != nil && fresh(result) && len(result) == 2 && bytestr(result) == be16enc(height)
 //@   modifies nothing
 
 //@ # the address table: ids 0..n-1, the two maps are inverse to each other
@@ -38,8 +34,8 @@ package events
 //@   ensures tables2: forall a types.Address :: (a in store.addressID) ==> 0 <= store.addressID[a] && store.addressID[a] < len(store.addressID) && (store.addressID[a] in store.idAddress) && store.idAddress[store.addressID[a]] == a
 //@   ensures tables3: forall i uint32 :: (i in store.idAddress) ==> 0 <= i && i < len(store.addressID) && (store.idAddress[i] in store.addressID) && store.addressID[store.idAddress[i]] == i
 //@   ensures others: forall a types.Address :: a != address ==> ((a in store.addressID) <==> old(a in store.addressID)) && store.addressID[a] == old(store.addressID[a])
-//@   ensures [C24] entry: !old(address in store.addressID) ==> disk(store.db, "address" + be32(result)) == bytestr(address)
-//@   ensures [C24] counter: !old(address in store.addressID) ==> disk(store.db, "addresses") == be32(len(store.addressID))
+//@   ensures [C24] entry: !old(address in store.addressID) ==> disk(store.db, "address" + be32enc(result)) == bytestr(address)
+//@   ensures [C24] counter: !old(address in store.addressID) ==> disk(store.db, "addresses") == be32enc(len(store.addressID))
 
 //@ # the public-key table: ids 1..n (0 means "no key"); what is proved here is the id range, the counter and that a
 //@ # known key keeps its id. NOT proved: that the looked-up key equals *validatorPubKey (the copy into key[:] is modelled
@@ -53,8 +49,8 @@ package events
 //@   ensures grows: len(store.idPubKey) == old(len(store.idPubKey)) || (len(store.idPubKey) == old(len(store.idPubKey)) + 1 && result == len(store.idPubKey))
 //@   ensures range: forall i uint16 :: (i in store.idPubKey) ==> 1 <= i && i <= len(store.idPubKey)
 //@   ensures kept: forall i uint16 :: old(i in store.idPubKey) ==> (i in store.idPubKey) && store.idPubKey[i] == old(store.idPubKey[i])
-//@   ensures [C24] counter: len(store.idPubKey) != old(len(store.idPubKey)) ==> disk(store.db, "pubKeys") == be16(len(store.idPubKey))
-//@   ensures [C24] entry: len(store.idPubKey) != old(len(store.idPubKey)) ==> disk(store.db, "pubKey" + be16(result)) == bytestr(deref(validatorPubKey))
+//@   ensures [C24] counter: len(store.idPubKey) != old(len(store.idPubKey)) ==> disk(store.db, "pubKeys") == be16enc(len(store.idPubKey))
+//@   ensures [C24] entry: len(store.idPubKey) != old(len(store.idPubKey)) ==> disk(store.db, "pubKey" + be16enc(result)) == bytestr(deref(validatorPubKey))
 
 //@ # ---------------------------------------------------------------- loading: ids are resolved through the tables (C24)
 //@ # abstract views of a compact (stored) event and of a compiled one: ASSUMED to be what the per-type accessors and
@@ -87,8 +83,42 @@ package events
 //@ func (*eventsStore).LoadEvents
 //@   serves C24
 //@   requires store != nil
+//@   assumespre (*eventsStore).loadPubKeys: the store was built by NewEventsStore (tables and database exist) and the counter entry has the layout savePubKey writes (proved there)
+//@   assumespre (*eventsStore).loadAddresses: the store was built by NewEventsStore (tables and database exist) and the counter entry has the layout saveAddress writes (proved there)
 //@   local items []compact
 //@   loop 0 invariant idx: -1 <= rangeindex && (rangeindex < len(items) || (rangeindex == -1 && len(items) == 0)) && len(resultEvents) == rangeindex + 1
 //@   loop 0 invariant stakekey: rangeindex >= 0 && typeis(items[rangeindex], "stake") ==> evKeyNil(resultEvents[rangeindex]) == !(pkidOf(items[rangeindex]) in store.idPubKey) && ((pkidOf(items[rangeindex]) in store.idPubKey) ==> evKey(resultEvents[rangeindex]) == store.idPubKey[pkidOf(items[rangeindex])])
 //@   loop 0 invariant stakeaddr: rangeindex >= 0 && typeis(items[rangeindex], "stake") ==> evAddr(resultEvents[rangeindex]) == store.idAddress[addrIdOf(items[rangeindex])]
 //@   loop 0 invariant addr: rangeindex >= 0 && !typeis(items[rangeindex], "stake") && !typeis(items[rangeindex], "*jail") && typeis(items[rangeindex], "address") ==> evAddr(resultEvents[rangeindex]) == store.idAddress[addrIdOfA(items[rangeindex])]
+
+//@ # ---------------------------------------------------------------- reload after a restart (C24)
+//@ # C24: loadAddresses reads exactly the layout saveAddress writes: the counter n under "addresses" and, for every id below
+//@ # n, the entry under the address prefix + big-endian id; afterwards id k stands for the 20 bytes stored in its entry
+//@ # (byte by byte). Stated for an arbitrary id anyI() and byte position anyH().
+//@ func (*eventsStore).loadAddresses
+//@   serves C24
+//@   skolem anyI, anyH
+//@   let k = anyI()
+//@   let j = anyH()
+//@   let n = be32dec(disk(store.db, "addresses"))
+//@   requires store != nil && store.db != nil && store.addressID != nil && store.idAddress != nil && store.addressID != store.idAddress
+//@   # the counter entry is absent or has the 4 bytes saveAddress writes
+//@   requires layout: len(disk(store.db, "addresses")) == 0 || len(disk(store.db, "addresses")) == 4
+//@   ensures [C24] reloaded: len(disk(store.db, "addresses")) > 0 && 0 <= k && k < old(n) ==> (k in store.idAddress) && (0 <= j && j < 20 && j < len(disk(store.db, "address" + be32enc(k))) ==> store.idAddress[k][j] == strat(disk(store.db, "address" + be32enc(k)), j))
+//@   ensures [C24] nothingstored: len(disk(store.db, "addresses")) == 0 ==> forall i uint32 :: (i in store.idAddress) <==> old(i in store.idAddress)
+//@   loop 0 invariant idx: 0 <= id && id <= old(n) && len(count) == 4 && bytestr(count) == old(disk(store.db, "addresses"))
+//@   loop 0 invariant done: 0 <= k && k < id ==> (k in store.idAddress) && (0 <= j && j < 20 && j < len(disk(store.db, "address" + be32enc(k))) ==> store.idAddress[k][j] == strat(disk(store.db, "address" + be32enc(k)), j))
+
+//@ # the same for the public-key table: ids 1..n (n = the counter under "pubKeys"), 32 bytes each
+//@ func (*eventsStore).loadPubKeys
+//@   serves C24
+//@   skolem anyI, anyH
+//@   let k = anyI()
+//@   let j = anyH()
+//@   let n = be16dec(disk(store.db, "pubKeys"))
+//@   requires store != nil && store.db != nil && store.pubKeyID != nil && store.idPubKey != nil && store.pubKeyID != store.idPubKey
+//@   requires layout: len(disk(store.db, "pubKeys")) == 0 || len(disk(store.db, "pubKeys")) == 2
+//@   requires room: n < 65535
+//@   ensures [C24] reloaded: len(disk(store.db, "pubKeys")) > 0 && 1 <= k && k <= old(n) ==> (k in store.idPubKey) && (0 <= j && j < 32 && j < len(disk(store.db, "pubKey" + be16enc(k))) ==> store.idPubKey[k][j] == strat(disk(store.db, "pubKey" + be16enc(k)), j))
+//@   loop 0 invariant idx: 1 <= id && id <= old(n) + 1 && len(count) == 2 && bytestr(count) == old(disk(store.db, "pubKeys"))
+//@   loop 0 invariant done: 1 <= k && k < id ==> (k in store.idPubKey) && (0 <= j && j < 32 && j < len(disk(store.db, "pubKey" + be16enc(k))) ==> store.idPubKey[k][j] == strat(disk(store.db, "pubKey" + be16enc(k)), j))
